@@ -26,6 +26,20 @@ Proof.
   - apply IH. assumption.
 Qed.
 
+Lemma filter_all_true {A} (f : A -> bool) l : (forall x, f x = true) -> filter f l = l.
+Proof. intros H. induction l as [|x l IH]; simpl; [reflexivity|]. rewrite H, IH. reflexivity. Qed.
+Lemma filter_all_false {A} (f : A -> bool) l : (forall x, f x = false) -> filter f l = [].
+Proof. intros H. induction l as [|x l IH]; simpl; [reflexivity|]. rewrite H, IH. reflexivity. Qed.
+
+Lemma NoDup_app_disj {A} (a b : list A) :
+  NoDup a -> NoDup b -> (forall x, In x a -> In x b -> False) -> NoDup (a ++ b).
+Proof.
+  induction a as [|x a IH]; intros Ha Hb Hd; [exact Hb|]. inversion Ha; subst. simpl. constructor.
+  - intros Hc. apply in_app_or in Hc. destruct Hc as [Hc|Hc]; [contradiction|].
+    apply (Hd x); [left; reflexivity|exact Hc].
+  - apply IH; [assumption|assumption|]. intros y Hy Hy'. apply (Hd y); [right; exact Hy|exact Hy'].
+Qed.
+
 (* ------------------------------------------------------------------ *)
 (* Specification vocabulary                                            *)
 
@@ -148,10 +162,11 @@ Proof. intros H. cbn. apply upd_other. exact H. Qed.
 Section Gather.
   Variable apply_fn : fn -> value -> fres.
   Variable apply_handler : fn -> exn -> value.
-  Variable results : fid -> fres.        (* the result each source future will get *)
+  Variable results : fid -> fres.        (* the result each source future gets / already has *)
   Variable source : list value.          (* argument of gather_futures *)
   Variable g : nat.
   Variable outer : fid.
+  Variable was_done : fid -> bool.       (* sources already finished when gather_futures is called *)
 
   Let pend := fids_of source.
   Hypothesis outer_fresh : ~ In outer pend.
@@ -165,10 +180,16 @@ Section Gather.
               else Pending [CbCancelWatch g]
     end.
 
-  Record ginv (sigma : list fid) (h : heap) : Prop := {
+  Definition init_state (f : fid) : fstate :=
+    if was_done f then Done (results f) else Pending [].
+
+  (* [unv]: sources gather_futures has not yet put its callback on; [sigma]: the
+     sources whose on_finish has run, in that order *)
+  Record ginv (unv sigma : list fid) (h : heap) : Prop := {
     gi_g : gathers h g = MkG (count_plain source + length sigma) (length source) source outer;
     gi_done : forall f, In f pend -> In f sigma -> futs h f = Done (results f);
-    gi_wait : forall f, In f pend -> ~ In f sigma -> futs h f = Pending [CbGather g];
+    gi_wait : forall f, In f pend -> ~ In f sigma -> ~ In f unv -> futs h f = Pending [CbGather g];
+    gi_unv : forall f, In f unv -> In f pend /\ ~ In f sigma /\ futs h f = init_state f;
     gi_outer : futs h outer = outer_spec sigma;
     gi_blocked : blocked h = false;
     gi_fuel : out_of_fuel h = false
@@ -200,20 +221,39 @@ Section Gather.
         * destruct (IH2 H) as [e He]. rewrite He. eauto.
   Qed.
 
-  Lemma first_fail_perm_none a b :
-    (forall f, In f a <-> In f b) -> first_fail results a = None -> first_fail results b = None.
+  (* build the invariant for a heap that differs from [h1] at most in [outer]
+     and in the bookkeeping fields *)
+  Lemma ginv_intro unv sg h1 h' :
+    gathers h1 g = MkG (count_plain source + length sg) (length source) source outer ->
+    (forall x, In x pend -> In x sg -> futs h1 x = Done (results x)) ->
+    (forall x, In x pend -> ~ In x sg -> ~ In x unv -> futs h1 x = Pending [CbGather g]) ->
+    (forall x, In x unv -> In x pend /\ ~ In x sg /\ futs h1 x = init_state x) ->
+    (forall x, x <> outer -> futs h' x = futs h1 x) -> gathers h' g = gathers h1 g ->
+    futs h' outer = outer_spec sg -> blocked h' = false -> out_of_fuel h' = false ->
+    ginv unv sg h'.
   Proof.
-    intros H Ha. apply first_fail_none. intros f Hf.
-    apply (proj1 (first_fail_none results a) Ha). apply H. exact Hf.
+    intros Hg Hd Hw Hu Hsame Hgs Ho Hb Hf.
+    assert (Hne : forall x, In x pend -> x <> outer) by (intros x Hx ->; contradiction).
+    constructor; try assumption.
+    - rewrite Hgs. exact Hg.
+    - intros x Hx Hs. rewrite (Hsame x (Hne x Hx)). apply Hd; assumption.
+    - intros x Hx Hs Hn. rewrite (Hsame x (Hne x Hx)). apply Hw; assumption.
+    - intros x Hx. destruct (Hu x Hx) as (A & B & C). split; [exact A|]. split; [exact B|].
+      rewrite (Hsame x (Hne x A)). exact C.
   Qed.
 
-  Hypothesis pend_nodup : NoDup pend.
-
-  Lemma ginv_step sigma h f fuel :
-    ginv sigma h -> NoDup sigma -> incl sigma pend -> In f pend -> ~ In f sigma -> 3 <= fuel ->
-    ginv (sigma ++ [f]) (complete apply_fn apply_handler fuel h f (results f)).
+  (* gather_futures.on_finish runs for the finished source f *)
+  Lemma ginv_fire unv sigma h0 f fuel :
+    futs h0 f = Done (results f) ->
+    gathers h0 g = MkG (count_plain source + length sigma) (length source) source outer ->
+    (forall x, In x pend -> In x sigma -> futs h0 x = Done (results x)) ->
+    (forall x, In x pend -> ~ In x sigma -> ~ In x unv -> x <> f -> futs h0 x = Pending [CbGather g]) ->
+    (forall x, In x unv -> In x pend /\ ~ In x sigma /\ x <> f /\ futs h0 x = init_state x) ->
+    futs h0 outer = outer_spec sigma -> blocked h0 = false -> out_of_fuel h0 = false ->
+    NoDup sigma -> incl sigma pend -> In f pend -> ~ In f sigma -> 3 <= fuel ->
+    ginv unv (sigma ++ [f]) (exec apply_fn apply_handler fuel [WCall (CbGather g) f] h0).
   Proof.
-    intros I Hnd Hincl Hf Hnf Hfuel.
+    intros Hh0f Hh0g Hd0 Hw0 Hu0 Ho0 Hb0 Hf0 Hnd Hincl Hf Hnf Hfuel.
     destruct fuel as [|[|[|fuel]]]; try lia.
     assert (Hof : outer <> f) by (intros ->; contradiction).
     assert (Hlt : length sigma < length pend).
@@ -221,32 +261,27 @@ Section Gather.
       assert (incl (f :: sigma) pend) by (intros x [<-|Hx]; auto).
       pose proof (NoDup_incl_length H H0). simpl in H1. lia. }
     pose proof (length_plain_fids source) as Hsrc. fold pend in Hsrc.
-    rewrite (complete_pending _ _ _ _ _ _ _ (gi_wait _ _ I f Hf Hnf)).
-    change (map (fun c : cb => WCall c f) [CbGather g]) with [WCall (CbGather g) f].
     rewrite exec_cons.
-    set (h0 := set_fut h f (Done (results f))).
-    assert (Hh0f : futs h0 f = Done (results f)) by (unfold h0; cbn; apply upd_same).
-    assert (Hh0g : gathers h0 g = MkG (count_plain source + length sigma) (length source) source outer)
-      by (unfold h0; cbn; apply (gi_g _ _ I)).
     set (gs' := MkG (S (count_plain source + length sigma)) (length source) source outer).
     set (h1 := set_gather h0 g gs').
-    assert (Hf1 : forall x, futs h1 x = if Nat.eqb x f then Done (results f) else futs h x).
-    { intros x. unfold h1, h0. cbn. unfold upd. reflexivity. }
-    assert (Hout1 : futs h1 outer = outer_spec sigma).
-    { rewrite Hf1. destruct (Nat.eqb_spec outer f); [congruence|]. apply (gi_outer _ _ I). }
+    assert (Hf1 : forall x, futs h1 x = futs h0 x) by reflexivity.
+    assert (Hout1 : futs h1 outer = outer_spec sigma) by (rewrite Hf1; exact Ho0).
     assert (Hdone1 : forall x, In x pend -> In x (sigma ++ [f]) -> futs h1 x = Done (results x)).
-    { intros x Hx Hin. rewrite Hf1. destruct (Nat.eqb_spec x f) as [->|Hne]; [reflexivity|].
-      apply in_app_or in Hin. destruct Hin as [Hin|[->|[]]]; [|congruence].
-      apply (gi_done _ _ I); assumption. }
-    assert (Hwait1 : forall x, In x pend -> ~ In x (sigma ++ [f]) -> futs h1 x = Pending [CbGather g]).
-    { intros x Hx Hnin. rewrite Hf1. destruct (Nat.eqb_spec x f) as [->|Hne].
-      - exfalso. apply Hnin. apply in_or_app. right. left. reflexivity.
-      - apply (gi_wait _ _ I); [assumption|]. intros Hc. apply Hnin. apply in_or_app. left. exact Hc. }
+    { intros x Hx Hin. rewrite Hf1. apply in_app_or in Hin. destruct Hin as [Hin|[<-|[]]]; [|exact Hh0f].
+      apply Hd0; assumption. }
+    assert (Hwait1 : forall x, In x pend -> ~ In x (sigma ++ [f]) -> ~ In x unv ->
+                               futs h1 x = Pending [CbGather g]).
+    { intros x Hx Hnin Hnu. rewrite Hf1. apply Hw0; try assumption.
+      - intros Hc. apply Hnin. apply in_or_app. left. exact Hc.
+      - intros ->. apply Hnin. apply in_or_app. right. left. reflexivity. }
+    assert (Hunv1 : forall x, In x unv -> In x pend /\ ~ In x (sigma ++ [f]) /\ futs h1 x = init_state x).
+    { intros x Hx. destruct (Hu0 x Hx) as (A & B & C & E). split; [exact A|]. split; [|rewrite Hf1; exact E].
+      intros Hc. apply in_app_or in Hc. destruct Hc as [Hc|[Hc|[]]]; [contradiction|congruence]. }
     assert (Hlen : length (sigma ++ [f]) = S (length sigma)) by (rewrite app_length; simpl; lia).
     assert (Hg1 : gathers h1 g = MkG (count_plain source + length (sigma ++ [f])) (length source) source outer).
     { unfold h1. cbn. rewrite upd_same. unfold gs'. rewrite Hlen. f_equal. lia. }
-    assert (Hb1 : blocked h1 = false) by (unfold h1, h0; cbn; apply (gi_blocked _ _ I)).
-    assert (Ho1 : out_of_fuel h1 = false) by (unfold h1, h0; cbn; apply (gi_fuel _ _ I)).
+    assert (Hb1 : blocked h1 = false) by (unfold h1; cbn; exact Hb0).
+    assert (Ho1 : out_of_fuel h1 = false) by (unfold h1; cbn; exact Hf0).
     destruct (results f) as [v|e] eqn:Er.
     - (* the source succeeded *)
       rewrite (run_cb_gather_val _ _ _ _ _ _ _ _ Hh0f Hh0g).
@@ -273,7 +308,7 @@ Section Gather.
             { apply first_fail_none. intros x Hx. apply Hc. apply Hincl. exact Hx. }
             congruence. }
           destruct (Craise Hp) as [e1 He1]. rewrite He1. rewrite exec_nil.
-          constructor; try assumption.
+          apply (ginv_intro unv (sigma ++ [f]) h1); try assumption; try reflexivity.
           rewrite futs_swallow, Hout1. unfold outer_spec. rewrite Hff, Eff. reflexivity.
         * assert (Hp : first_fail results pend = None).
           { apply first_fail_none. intros x Hx. specialize (Hcover x Hx).
@@ -289,16 +324,12 @@ Section Gather.
           rewrite exec_cons.
           rewrite (run_cb_cancelwatch _ _ _ _ _ _ _ (futs_set_fut_same _ _ _)).
           rewrite exec_nil.
-          constructor.
-          -- exact Hg1.
-          -- intros x Hx Hin. rewrite futs_set_fut_other; [apply Hdone1; assumption|]. intros ->. contradiction.
-          -- intros x Hx Hnin. rewrite futs_set_fut_other; [apply Hwait1; assumption|]. intros ->. contradiction.
+          apply (ginv_intro unv (sigma ++ [f]) h1); try assumption; try reflexivity.
+          -- intros x Hx. apply futs_set_fut_other. exact Hx.
           -- rewrite futs_set_fut_same. unfold outer_spec. rewrite Hff, Hall, Nat.eqb_refl. reflexivity.
-          -- exact Hb1.
-          -- exact Ho1.
       + (* not the last one *)
         rewrite exec_nil.
-        constructor; try assumption.
+        apply (ginv_intro unv (sigma ++ [f]) h1); try assumption; try reflexivity.
         rewrite Hout1. unfold outer_spec. rewrite Hff.
         destruct (first_fail results sigma); [reflexivity|].
         destruct (Nat.eqb_spec (length sigma) (length pend)); [lia|].
@@ -314,7 +345,7 @@ Section Gather.
         assert (Hod : futs h1 outer = Done (RExn e0)).
         { rewrite Hout1. unfold outer_spec. rewrite Eff. reflexivity. }
         rewrite (settle_done _ _ _ _ _ Hod). rewrite exec_nil.
-        constructor; try assumption.
+        apply (ginv_intro unv (sigma ++ [f]) h1); try assumption; try reflexivity.
         rewrite futs_swallow, Hod. unfold outer_spec. rewrite Hff. reflexivity.
       + assert (Hop : futs h1 outer = Pending [CbCancelWatch g]).
         { rewrite Hout1. unfold outer_spec. rewrite Eff.
@@ -325,19 +356,39 @@ Section Gather.
         rewrite exec_cons.
         rewrite (run_cb_cancelwatch _ _ _ _ _ _ _ (futs_set_fut_same _ _ _)).
         rewrite exec_nil.
-        constructor.
-        * exact Hg1.
-        * intros x Hx Hin. rewrite futs_set_fut_other; [apply Hdone1; assumption|]. intros ->. contradiction.
-        * intros x Hx Hnin. rewrite futs_set_fut_other; [apply Hwait1; assumption|]. intros ->. contradiction.
+        apply (ginv_intro unv (sigma ++ [f]) h1); try assumption; try reflexivity.
+        * intros x Hx. apply futs_set_fut_other. exact Hx.
         * rewrite futs_set_fut_same. unfold outer_spec. rewrite Hff. reflexivity.
-        * exact Hb1.
-        * exact Ho1.
   Qed.
 
-  (* every completion sequence *)
+  (* a registered, still pending source completes *)
+  Lemma ginv_step unv sigma h f fuel :
+    ginv unv sigma h -> NoDup sigma -> incl sigma pend -> In f pend -> ~ In f sigma -> ~ In f unv ->
+    3 <= fuel ->
+    ginv unv (sigma ++ [f]) (complete apply_fn apply_handler fuel h f (results f)).
+  Proof.
+    intros I Hnd Hincl Hf Hnf Hnu Hfuel.
+    rewrite (complete_pending _ _ _ _ _ _ _ (gi_wait _ _ _ I f Hf Hnf Hnu)).
+    change (map (fun c : cb => WCall c f) [CbGather g]) with [WCall (CbGather g) f].
+    assert (Hof : outer <> f) by (intros ->; contradiction).
+    apply ginv_fire; try assumption.
+    - apply futs_set_fut_same.
+    - cbn. apply (gi_g _ _ _ I).
+    - intros x Hx Hs. rewrite futs_set_fut_other by (intros ->; contradiction). apply (gi_done _ _ _ I); assumption.
+    - intros x Hx Hs Hn Hne. rewrite futs_set_fut_other by exact Hne. apply (gi_wait _ _ _ I); assumption.
+    - intros x Hx. destruct (gi_unv _ _ _ I x Hx) as (A & B & C).
+      assert (x <> f) by (intros ->; contradiction).
+      split; [exact A|]. split; [exact B|]. split; [exact H|].
+      rewrite futs_set_fut_other by exact H. exact C.
+    - rewrite futs_set_fut_other by exact Hof. apply (gi_outer _ _ _ I).
+    - cbn. apply (gi_blocked _ _ _ I).
+    - cbn. apply (gi_fuel _ _ _ I).
+  Qed.
+
+  (* every completion sequence of the registered sources *)
   Lemma ginv_run fuel : 3 <= fuel -> forall sigma pre h,
-    ginv pre h -> NoDup (pre ++ sigma) -> incl (pre ++ sigma) pend ->
-    ginv (pre ++ sigma)
+    ginv [] pre h -> NoDup (pre ++ sigma) -> incl (pre ++ sigma) pend ->
+    ginv [] (pre ++ sigma)
          (fold_left (fun h f => complete apply_fn apply_handler fuel h f (results f)) sigma h).
   Proof.
     intros Hfuel. induction sigma as [|f sigma IH]; intros pre h I Hnd Hincl.
@@ -351,6 +402,60 @@ Section Gather.
       + intros x Hx. apply Hincl. apply in_or_app. left. apply in_or_app. left. exact Hx.
       + apply Hincl. apply in_or_app. left. apply in_or_app. right. left. reflexivity.
       + intros Hc. apply NoDup_remove_2 in Hnd'. rewrite app_nil_r in Hnd'. contradiction.
+      + intros [].
+  Qed.
+
+  (* `for f in pending: f.add_done_callback(on_finish)`: a pending source gets the
+     callback, on a finished one on_finish runs at once *)
+  Lemma ginv_add_all fuel : 3 <= fuel -> forall fs sigma h,
+    NoDup fs -> ginv fs sigma h -> NoDup sigma -> incl sigma pend ->
+    ginv [] (sigma ++ filter was_done fs)
+         (add_all apply_fn apply_handler fuel h fs (CbGather g)) /\
+    NoDup (sigma ++ filter was_done fs) /\ incl (sigma ++ filter was_done fs) pend.
+  Proof.
+    intros Hfuel. induction fs as [|f fs IH]; intros sigma h Hndf I Hnd Hincl.
+    - simpl. rewrite app_nil_r. auto.
+    - inversion Hndf as [|? ? Hnin Hndf']; subst.
+      destruct (gi_unv _ _ _ I f (or_introl eq_refl)) as (Hfp & Hfs & Hst).
+      assert (Hof : outer <> f) by (intros ->; contradiction).
+      cbn [add_all filter]. unfold add_cb. rewrite Hst. unfold init_state.
+      destruct (was_done f) eqn:Ew.
+      + (* already finished: on_finish runs inside add_done_callback *)
+        assert (I' : ginv fs (sigma ++ [f])
+                       (exec apply_fn apply_handler fuel [WCall (CbGather g) f] h)).
+        { apply ginv_fire; try assumption.
+          - rewrite Hst. unfold init_state. rewrite Ew. reflexivity.
+          - apply (gi_g _ _ _ I).
+          - apply (gi_done _ _ _ I).
+          - intros x Hx Hs Hn Hne. apply (gi_wait _ _ _ I); try assumption.
+            intros [Hc|Hc]; [congruence|contradiction].
+          - intros x Hx. destruct (gi_unv _ _ _ I x (or_intror Hx)) as (A & B & C).
+            split; [exact A|]. split; [exact B|]. split; [|exact C]. intros ->. contradiction.
+          - apply (gi_outer _ _ _ I).
+          - apply (gi_blocked _ _ _ I).
+          - apply (gi_fuel _ _ _ I). }
+        assert (Hnd' : NoDup (sigma ++ [f])) by (apply NoDup_snoc; assumption).
+        assert (Hincl' : incl (sigma ++ [f]) pend).
+        { intros x Hx. apply in_app_or in Hx. destruct Hx as [Hx|[<-|[]]]; auto. }
+        destruct (IH (sigma ++ [f]) _ Hndf' I' Hnd' Hincl') as (A & B & C).
+        rewrite <- app_assoc in A, B, C. simpl in A, B, C. auto.
+      + (* pending: the callback is registered *)
+        cbn [app]. rewrite exec_nil.
+        assert (I' : ginv fs sigma (set_fut h f (Pending [CbGather g]))).
+        { apply (ginv_intro fs sigma (set_fut h f (Pending [CbGather g]))); try reflexivity.
+          - cbn. apply (gi_g _ _ _ I).
+          - intros x Hx Hs. rewrite futs_set_fut_other by (intros ->; contradiction).
+            apply (gi_done _ _ _ I); assumption.
+          - intros x Hx Hs Hn. destruct (Nat.eq_dec x f) as [->|Hne]; [apply futs_set_fut_same|].
+            rewrite futs_set_fut_other by exact Hne. apply (gi_wait _ _ _ I); try assumption.
+            intros [Hc|Hc]; [congruence|contradiction].
+          - intros x Hx. destruct (gi_unv _ _ _ I x (or_intror Hx)) as (A & B & C).
+            split; [exact A|]. split; [exact B|].
+            rewrite futs_set_fut_other by (intros ->; contradiction). exact C.
+          - rewrite futs_set_fut_other by exact Hof. apply (gi_outer _ _ _ I).
+          - cbn. apply (gi_blocked _ _ _ I).
+          - cbn. apply (gi_fuel _ _ _ I). }
+        apply (IH sigma _ Hndf' I' Hnd Hincl).
   Qed.
 End Gather.
 
@@ -359,32 +464,6 @@ End Gather.
 Section GatherInit.
   Variable apply_fn : fn -> value -> fres.
   Variable apply_handler : fn -> exn -> value.
-
-  Lemma add_all_fresh fuel c : forall fs h,
-    NoDup fs -> (forall f, In f fs -> futs h f = Pending []) ->
-    let h' := add_all apply_fn apply_handler fuel h fs c in
-    (forall x, In x fs -> futs h' x = Pending [c]) /\
-    (forall x, ~ In x fs -> futs h' x = futs h x) /\
-    gathers h' = gathers h /\ blocked h' = blocked h /\ out_of_fuel h' = out_of_fuel h.
-  Proof.
-    induction fs as [|f fs IH]; intros h Hnd Hall; simpl.
-    - repeat split; intros; contradiction.
-    - inversion Hnd as [|? ? Hnin Hnd']; subst.
-      unfold add_cb. rewrite (Hall f (or_introl eq_refl)). rewrite exec_nil.
-      set (h1 := set_fut h f (Pending ([] ++ [c]))).
-      assert (Hall1 : forall x, In x fs -> futs h1 x = Pending []).
-      { intros x Hx. unfold h1. rewrite futs_set_fut_other; [apply Hall; right; exact Hx|].
-        intros ->. contradiction. }
-      destruct (IH h1 Hnd' Hall1) as (A & B & C & D & E).
-      repeat split.
-      + intros x [<-|Hx]; [|apply A; exact Hx].
-        rewrite B by assumption. unfold h1. apply futs_set_fut_same.
-      + intros x Hx. rewrite B by (intros Hc; apply Hx; right; exact Hc).
-        unfold h1. apply futs_set_fut_other. intros ->. apply Hx. left. reflexivity.
-      + rewrite C. reflexivity.
-      + rewrite D. reflexivity.
-      + rewrite E. reflexivity.
-  Qed.
 
   Lemma gather_unfold fuel h source :
     fids_of source <> [] ->
@@ -398,15 +477,19 @@ Section GatherInit.
     destruct (fids_of (v0 :: source')) eqn:E; [contradiction|reflexivity].
   Qed.
 
-  Lemma gather_registers fuel h source results :
+  (* sources may be pending (no other callbacks) or already finished *)
+  Lemma gather_registers fuel h source results was_done :
+    3 <= fuel ->
     fids_of source <> [] -> NoDup (fids_of source) ->
-    (forall f, In f (fids_of source) -> futs h f = Pending [] /\ f < next_fid h) ->
+    (forall f, In f (fids_of source) ->
+       futs h f = init_state results was_done f /\ f < next_fid h) ->
     blocked h = false -> out_of_fuel h = false ->
     exists h1, gather apply_fn apply_handler fuel h source = (Ret (VFut (next_fid h)), h1) /\
-               ginv results source (next_g h) (next_fid h) [] h1 /\
+               ginv results source (next_g h) (next_fid h) was_done []
+                    (filter was_done (fids_of source)) h1 /\
                ~ In (next_fid h) (fids_of source).
   Proof.
-    intros Hne Hnd Hall Hb Ho.
+    intros Hfuel Hne Hnd Hall Hb Ho.
     assert (Hfresh : ~ In (next_fid h) (fids_of source)).
     { intros Hc. destruct (Hall _ Hc) as [_ Hlt]. lia. }
     rewrite (gather_unfold fuel h source Hne).
@@ -416,24 +499,60 @@ Section GatherInit.
     assert (Hout2 : futs h2 outer = Pending []) by (unfold h2; cbn; apply upd_same).
     unfold add_cb. rewrite Hout2. cbn [app].
     set (h3 := set_fut h2 outer (Pending [CbCancelWatch g])).
-    assert (Hall3 : forall f, In f (fids_of source) -> futs h3 f = Pending []).
+    assert (Hall3 : forall f, In f (fids_of source) -> futs h3 f = init_state results was_done f).
     { intros f Hf. unfold h3. rewrite futs_set_fut_other by (intros ->; contradiction).
       unfold h2. cbn. rewrite upd_other by (intros ->; contradiction). apply Hall. exact Hf. }
-    destruct (add_all_fresh fuel (CbGather g) (fids_of source) h3 Hnd Hall3) as (A & B & C & D & E).
-    eexists. split; [reflexivity|]. split; [|exact Hfresh].
-    constructor.
-    - rewrite C. unfold h3, h2. cbn. rewrite upd_same. simpl. rewrite Nat.add_0_r. reflexivity.
-    - intros f _ [].
-    - intros f Hf _. apply A. exact Hf.
-    - rewrite B by exact Hfresh. unfold h3. rewrite futs_set_fut_same.
-      unfold outer_spec. simpl first_fail.
-      destruct (Nat.eqb_spec (@length fid []) (length (fids_of source))) as [Hl|_]; [|reflexivity].
-      simpl in Hl. destruct (fids_of source); [contradiction|discriminate].
-    - rewrite D. unfold h3, h2. cbn. exact Hb.
-    - rewrite E. unfold h3, h2. cbn. exact Ho.
+    assert (I3 : ginv results source g outer was_done (fids_of source) [] h3).
+    { constructor.
+      - unfold h3, h2. cbn. rewrite upd_same. simpl. rewrite Nat.add_0_r. reflexivity.
+      - intros f _ [].
+      - intros f Hf _ Hn. contradiction.
+      - intros f Hf. split; [exact Hf|]. split; [intros []|apply Hall3; exact Hf].
+      - unfold h3. rewrite futs_set_fut_same. unfold outer_spec. simpl first_fail.
+        destruct (Nat.eqb_spec (@length fid []) (length (fids_of source))) as [Hl|_]; [|reflexivity].
+        simpl in Hl. destruct (fids_of source); [contradiction|discriminate].
+      - unfold h3, h2. cbn. exact Hb.
+      - unfold h3, h2. cbn. exact Ho. }
+    destruct (ginv_add_all apply_fn apply_handler results source g outer was_done Hfresh fuel Hfuel
+                           (fids_of source) [] h3 Hnd I3 (NoDup_nil _) (fun x (H : In x []) => match H with end))
+      as (A & _ & _).
+    eexists. split; [reflexivity|]. split; [exact A|exact Hfresh].
   Qed.
 
-  (* gather_futures under every completion order of its sources *)
+  (* gather_futures under every completion order of its sources, some of which
+     may already be finished when it is called: those count as having completed
+     first, in source order *)
+  Theorem gather_mixed_orders fuel h source results was_done sigma :
+    3 <= fuel ->
+    fids_of source <> [] -> NoDup (fids_of source) ->
+    (forall f, In f (fids_of source) ->
+       futs h f = init_state results was_done f /\ f < next_fid h) ->
+    blocked h = false -> out_of_fuel h = false ->
+    NoDup sigma -> incl sigma (filter (fun f => negb (was_done f)) (fids_of source)) ->
+    exists outer h1,
+      gather apply_fn apply_handler fuel h source = (Ret (VFut outer), h1) /\
+      let hs := fold_left (fun h f => complete apply_fn apply_handler fuel h f (results f)) sigma h1 in
+      futs hs outer = outer_spec results source (next_g h) (filter was_done (fids_of source) ++ sigma) /\
+      blocked hs = false /\ out_of_fuel hs = false.
+  Proof.
+    intros Hfuel Hne Hnd Hall Hb Ho Hnds Hincl.
+    destruct (gather_registers fuel h source results was_done Hfuel Hne Hnd Hall Hb Ho) as (h1 & Hg & I & Hfresh).
+    exists (next_fid h), h1. split; [exact Hg|].
+    assert (Hnd2 : NoDup (filter was_done (fids_of source) ++ sigma)).
+    { apply NoDup_app_disj; [apply NoDup_filter; exact Hnd|exact Hnds|].
+      intros x Hx Hs. apply filter_In in Hx. destruct Hx as [_ Hx].
+      apply Hincl in Hs. apply filter_In in Hs. destruct Hs as [_ Hs]. rewrite Hx in Hs. discriminate. }
+    assert (Hincl2 : incl (filter was_done (fids_of source) ++ sigma) (fids_of source)).
+    { intros x Hx. apply in_app_or in Hx. destruct Hx as [Hx|Hx].
+      - apply filter_In in Hx. apply Hx.
+      - apply Hincl in Hx. apply filter_In in Hx. apply Hx. }
+    pose proof (ginv_run apply_fn apply_handler results source (next_g h) (next_fid h) was_done
+                         Hfresh fuel Hfuel sigma _ h1 I Hnd2 Hincl2) as J.
+    simpl in J. split; [apply (gi_outer _ _ _ _ _ _ _ _ J)|].
+    split; [apply (gi_blocked _ _ _ _ _ _ _ _ J)|apply (gi_fuel _ _ _ _ _ _ _ _ J)].
+  Qed.
+
+  (* the all-pending instance *)
   Theorem gather_all_orders fuel h source results sigma :
     3 <= fuel ->
     fids_of source <> [] -> NoDup (fids_of source) ->
@@ -447,12 +566,10 @@ Section GatherInit.
       blocked hs = false /\ out_of_fuel hs = false.
   Proof.
     intros Hfuel Hne Hnd Hall Hb Ho Hnds Hincl.
-    destruct (gather_registers fuel h source results Hne Hnd Hall Hb Ho) as (h1 & Hg & I & Hfresh).
-    exists (next_fid h), h1. split; [exact Hg|].
-    pose proof (ginv_run apply_fn apply_handler results source (next_g h) (next_fid h)
-                         Hfresh fuel Hfuel sigma [] h1 I Hnds Hincl) as J.
-    simpl in J. split; [apply (gi_outer _ _ _ _ _ _ J)|].
-    split; [apply (gi_blocked _ _ _ _ _ _ J)|apply (gi_fuel _ _ _ _ _ _ J)].
+    pose proof (gather_mixed_orders fuel h source results (fun _ => false) sigma Hfuel Hne Hnd) as H.
+    rewrite (filter_all_false (fun _ : fid => false)) in H by reflexivity.
+    rewrite (filter_all_true (fun _ : fid => negb false)) in H by reflexivity.
+    apply H; assumption.
   Qed.
 
   (* sources that are all plain: the list itself, no future involved *)
@@ -1002,3 +1119,82 @@ Section UnwrapTheorem.
       + apply (proj2 Hfront).
   Qed.
 End UnwrapTheorem.
+
+Section UnwrapMixed.
+  Variable apply_fn : fn -> value -> fres.
+  Variable apply_handler : fn -> exn -> value.
+
+  (* unwrap_future over a nest some of whose members are already finished when it
+     is called (they count as completed), the others completed in any order *)
+  Theorem unwrap_mixed_orders fuel h res (was_done : fid -> bool) ss sigma :
+    is_nest res ss -> NoDup ss ->
+    (forall s, In s ss -> futs h s = (if was_done s then Done (res s) else Pending []) /\ s < next_fid h) ->
+    length ss + 1 < fuel -> NoDup sigma -> incl sigma (filter (fun s => negb (was_done s)) ss) ->
+    exists h1,
+      unwrap apply_fn apply_handler fuel h (VFut (hd 0 ss)) = (VFut (next_fid h), h1) /\
+      let hs := fold_left (fun h f => complete apply_fn apply_handler fuel h f (res f)) sigma h1 in
+      ((forall s, In s ss -> was_done s = true \/ In s sigma) -> futs hs (next_fid h) = Done (final res ss)) /\
+      ((exists s, In s ss /\ was_done s = false /\ ~ In s sigma) -> futs hs (next_fid h) = Pending []) /\
+      same_meta h hs.
+  Proof.
+    intros Hnest Hnd Hall Hfuel Hnds Hincl.
+    set (D := filter was_done ss).
+    assert (Hfresh : ~ In (next_fid h) ss).
+    { intros Hc. destruct (Hall _ Hc) as [_ Hlt]. lia. }
+    unfold unwrap. cbn [new_future].
+    set (outer := next_fid h) in *.
+    match goal with |- context [add_cb ?hh (hd 0 ss) ?c []] => set (h0 := hh) end.
+    assert (Hh0 : forall x, x <> outer -> futs h0 x = futs h x).
+    { intros x Hx. unfold h0. cbn. apply upd_other. exact Hx. }
+    assert (Hop : futs h0 outer = Pending []) by (unfold h0; cbn; apply upd_same).
+    assert (Hst : forall s, In s ss -> futs h0 s = Done (res s) \/ futs h0 s = Pending []).
+    { intros s Hs. rewrite Hh0 by (intros ->; contradiction). destruct (Hall s Hs) as [E _].
+      rewrite E. destruct (was_done s); auto. }
+    assert (Hlen : length ss < fuel) by lia.
+    pose proof (cascade apply_fn apply_handler res outer ss h0 fuel Hnest Hnd Hfresh Hop Hst Hlen) as Hc.
+    destruct (add_cb h0 (hd 0 ss) (CbUnwrap outer) []) as [h' st] eqn:Ea.
+    destruct Hc as [Hmeta Hc].
+    set (h1 := exec apply_fn apply_handler fuel st h') in *.
+    exists h1. split; [reflexivity|].
+    assert (Hd0 : forall s, In s ss -> In s D -> futs h0 s = Done (res s)).
+    { intros s Hs HsD. apply filter_In in HsD. rewrite Hh0 by (intros ->; contradiction).
+      destruct (Hall s Hs) as [E _]. rewrite E, (proj2 HsD). reflexivity. }
+    assert (Hw0 : forall s, In s ss -> ~ In s D -> futs h0 s = Pending []).
+    { intros s Hs HsD. rewrite Hh0 by (intros ->; contradiction). destruct (Hall s Hs) as [E _]. rewrite E.
+      destruct (was_done s) eqn:Ew; [|reflexivity]. exfalso. apply HsD. apply filter_In. auto. }
+    rewrite (first_pending_dropdone res D h0 ss Hd0 Hw0) in Hc.
+    assert (I : uinv res outer ss h D h1).
+    { constructor.
+      - intros s Hs HsD. destruct (dropdone D ss) as [|sk tk] eqn:Ek; cbn [hd_error] in Hc.
+        + destruct Hc as [_ Hc]. rewrite Hc by (intros ->; contradiction). apply Hd0; assumption.
+        + destruct Hc as [_ Hc]. rewrite Hc; [apply Hd0; assumption|]. intros ->.
+          destruct (dropdone_split D ss sk tk Ek) as (pre0 & _ & _ & Hn). contradiction.
+      - destruct (dropdone D ss) as [|sk tk] eqn:Ek; cbn [hd_error] in Hc.
+        + apply Hc.
+        + destruct Hc as [Hk Hc]. split; [exact Hk|]. rewrite Hc; [exact Hop|]. intros ->.
+          destruct (dropdone_split D ss sk tk Ek) as (p2 & E2 & _ & _).
+          apply Hfresh. rewrite E2. apply in_or_app. right. left. reflexivity.
+      - intros s Hs HsD Hhd. destruct (dropdone D ss) as [|sk tk] eqn:Ek; cbn [hd_error] in Hc, Hhd.
+        + exfalso. apply HsD. apply (dropdone_nil D ss Ek). exact Hs.
+        + destruct Hc as [_ Hc]. rewrite Hc; [apply Hw0; assumption|]. intros ->. apply Hhd. reflexivity.
+      - destruct Hmeta as (A & B & C). unfold h0 in A, B, C. cbn in A, B, C. repeat split; assumption. }
+    assert (HndD : NoDup (D ++ sigma)).
+    { apply NoDup_app_disj; [apply NoDup_filter; exact Hnd|exact Hnds|].
+      intros x Hx Hs. apply filter_In in Hx. destruct Hx as [_ Hx].
+      apply Hincl in Hs. apply filter_In in Hs. destruct Hs as [_ Hs]. rewrite Hx in Hs. discriminate. }
+    assert (Hincl' : incl sigma ss).
+    { intros x Hx. apply Hincl in Hx. apply filter_In in Hx. apply Hx. }
+    pose proof (uinv_run apply_fn apply_handler res outer ss Hnest Hnd Hfresh h fuel Hfuel
+                         sigma D h1 I HndD Hincl') as J.
+    cbv zeta. pose proof (ui_front _ _ _ _ _ _ J) as Hfront.
+    split; [|split; [|apply (ui_meta _ _ _ _ _ _ J)]].
+    - intros Hall_in.
+      rewrite (dropdone_all_in (D ++ sigma) ss) in Hfront; [exact Hfront|].
+      intros s Hs. apply in_or_app. destruct (Hall_in s Hs) as [Hw|Hsg]; [left; apply filter_In; auto|right; exact Hsg].
+    - intros (s & Hs & Hw & Hnin). destruct (dropdone (D ++ sigma) ss) as [|sm tl'] eqn:Ed.
+      + exfalso. pose proof (dropdone_nil (D ++ sigma) ss Ed s Hs) as Hc'. apply in_app_or in Hc'.
+        destruct Hc' as [Hc'|Hc']; [|contradiction]. apply filter_In in Hc'. destruct Hc' as [_ Hc'].
+        rewrite Hw in Hc'. discriminate.
+      + apply (proj2 Hfront).
+  Qed.
+End UnwrapMixed.
